@@ -26,15 +26,16 @@ THEOREMS = [
     'C06Regex.kwOnly_regex', 'C06Regex.kwOnly_regex_all', 'C06Regex.comment_regex', 'C06Regex.label_regex', 'C06Regex.else_regex',
     'C06Regex.assign_regex', 'C06Regex.continuation_regex', 'C06Regex.return_regex', 'C06Regex.kwExprColon_regex', 'C06Regex.if_regex',
     'C06Regex.elif_regex', 'C06Regex.while_regex', 'C06Regex.for_regex',
-    'C06Regex.shape_is_cascade_partial', 'C06Regex.shape_is_cascade_partial2',
+    'C06Regex.name_tail', 'C06Regex.paren_rx', 'C06Regex.jump_regex', 'C06Regex.delim_prefix', 'C06Regex.system_tail', 'C06Regex.quote_loop',
+    'C06Regex.shape_is_cascade_partial', 'C06Regex.shape_is_cascade_partial2', 'C06Regex.shape_is_cascade_partial3',
 ]
-LEAN_TARGETS = ['BareProofs.C06RegexPins', 'BareProofs.C06Regex', 'BareProofs.C06Regex2']
+LEAN_TARGETS = ['BareProofs.C06RegexPins', 'BareProofs.C06Regex', 'BareProofs.C06Regex2', 'BareProofs.C06Regex3']
 EXTRA_TARGETS = ['drv_c06x']
 GEN = ['Regex']
 
 # scanners whose "scanner = regex" theorem is proved for all lines without '\n' (the others are only correspondence-checked by rx-scan)
 PROVED = {'endfunction', 'endif', 'endwhile', 'endfor', 'break', 'continue', 'comment', 'continuation', 'label', 'else', 'assign', 'if', 'elif',
-          'while', 'return', 'for'}
+          'while', 'return', 'for', 'jump'}
 
 SCANNERS = ['assign', 'function', 'endfunction', 'if', 'elif', 'else', 'endif', 'while', 'endwhile', 'for', 'endfor', 'break', 'continue', 'label',
             'jump', 'return', 'include', 'comment', 'continuation', 'shape']
@@ -239,7 +240,7 @@ def _streams(ctx, drv):
                                  'cascade (RxPatterns.rxShape) vs the first pattern the real parse_script matched (recorded through regex proxies); lines '
                                  'without \\n; non-trivial = the pattern matches')
     st_s = ctx.stream('rx-scan', 'the hand-written scanners of Scan / Text, as Scan.shape uses them (indentation stripped, offsets re-based), vs the reading '
-                                 'of the REAL re match per pattern - the correspondence check for the patterns without a proved regex theorem (function, jump, '
+                                 'of the REAL re match per pattern - the correspondence check for the patterns without a proved regex theorem (function, '
                                  'include, the cascade); run for the proved ones too; non-trivial = the pattern matches')
     C10 = None
     try:
